@@ -49,6 +49,11 @@ func ScratchRoot() string {
 
 // World is a set of replica repositories and bare remotes below one directory.
 type World struct {
+	// UserKeys: when set before SetupUsers, user i gets key i as signing key; PrivateKeys serves the
+	// private parts to User()
+	UserKeys    []*identity.Key
+	PrivateKeys repository.RepoKeyring
+
 	Dir      string
 	Replicas []string
 	Remotes  []string
@@ -136,10 +141,17 @@ func (w *World) Close() {
 // SetupUsers creates one identity per replica (actor "setup/<replica>"), selects it as the
 // replica's user, pushes it to remote and pulls all identities everywhere.
 func (w *World) SetupUsers(remote string) error {
-	for _, a := range w.Replicas {
+	for i, a := range w.Replicas {
 		vctl.SetActor("setup/" + a)
 		repo := w.Repos[a]
-		id, err := identity.NewIdentity(repo, "user "+a, a+"@example.org")
+		var id *identity.Identity
+		var err error
+		if len(w.UserKeys) > 0 {
+			// users with a signing key: every commit they author is signed and verified on read
+			id, err = identity.NewIdentityFull(repo, "user "+a, a+"@example.org", "", "", []*identity.Key{w.UserKeys[i%len(w.UserKeys)]})
+		} else {
+			id, err = identity.NewIdentity(repo, "user "+a, a+"@example.org")
+		}
 		if err != nil {
 			return err
 		}
@@ -169,7 +181,15 @@ func (w *World) SetupUsers(remote string) error {
 
 // User loads replica a's user identity from a's repository.
 func (w *World) User(a string) (*identity.Identity, error) {
-	return identity.ReadLocal(w.Repos[a], w.Users[a])
+	id, err := identity.ReadLocal(w.Repos[a], w.Users[a])
+	if err == nil && w.PrivateKeys != nil {
+		// load the private part of the user's keys from the harness keyring (git-bug would read its
+		// keyring file; the outcome is the same: SigningKey finds a key it can sign with)
+		if _, kerr := id.SigningKey(w.PrivateKeys); kerr != nil {
+			return nil, kerr
+		}
+	}
+	return id, err
 }
 
 // Refs returns "name hash" for every ref below the given prefixes, sorted.
